@@ -15,9 +15,9 @@ from vlib.runner import HERE, Outcome, hyp_search
 
 ID = "C12"
 LEVEL = "exploration"
-RULE = ("Each shard fixes a pool of 11 documents (generated ones that deliberately share object numbers, the resource "
+RULE = ("Each shard fixes a pool of 13 documents (generated ones that deliberately share object numbers, the resource "
         "name /F1, BaseFont names, base encodings differing only in /Differences, predefined CMap names with different "
-        "ToUnicode maps, multi-page members, a grid of equidistant labels, two Type0 fonts sharing one descendant, Type1 fonts with different built-in encodings, a /Font dictionary mixing indirect and direct fonts; plus repository samples incl. an AES-encrypted one and CJK ones). "
+        "ToUnicode maps, multi-page members, a grid of equidistant labels, two Type0 fonts sharing one descendant, Type1 fonts with different built-in encodings, a /Font dictionary mixing indirect and direct fonts, two documents encrypted through the same crypt filter name with different keys; plus repository samples incl. an AES-encrypted one and CJK ones). "
         "Hypothesis draws call histories (model-based op lists) run in one long-lived process: extract_text, "
         "extract_pages to completion, open a page iterator, advance any open iterator (interleaving documents), extract "
         "a single page by page_numbers, extract_text_to_fp(xml); each with caching on/off and LAParams default or "
@@ -129,6 +129,13 @@ def gen_doc(kind, variant):
             for c in range(n):
                 parts.append(b"BT /F1 10 Tf %d %d Td (L%d%d) Tj ET" % (60 + 120 * c, 700 - 100 * r, r, c))
         pages = [b"\n".join(parts), b"\n".join(reversed(parts))]
+    elif kind == "crypt":
+        # encrypted with the standard security handler, crypt filter /StdCF in every variant but different file keys
+        # (and RC4 vs AES): per-document decryption state must not be shared between open documents
+        objs[10] = W.simple_font("CryptFont")
+        pages = [b"BT /F1 12 Tf 50 700 Td (Secret %d page one) Tj ET" % variant,
+                 b"BT /F1 12 Tf 50 650 Td (Secret %d page two) Tj ET" % variant,
+                 b"BT /F1 12 Tf 50 600 Td (Secret %d page three) Tj ET" % variant]
     else:
         raise ValueError(kind)
     kids = []
@@ -140,6 +147,12 @@ def gen_doc(kind, variant):
         kids.append(W.R(21 + 2 * i))
     objs[1] = W.D(Type=W.N("Catalog"), Pages=W.R(2))
     objs[2] = W.D(Type=W.N("Pages"), Kids=kids, Count=len(kids))
+    if kind == "crypt":
+        from vlib import crypt as CR
+        id0 = bytes([variant + 1]) * 16
+        h = CR.Handler(4, 4, 128, ["V2", "AESV2"][variant % 2], True, CR.make_P(True, True, True), id0, "",
+                       "owner%d" % variant, random.Random(variant))
+        return CR.build_file(objs, {}, {b"Root": W.R(1), b"ID": [id0, id0]}, handler=h)
     return W.build_pdf(objs)
 
 
@@ -171,6 +184,9 @@ def make_pool(rnd):
     pool.append(["gen", "fontfile", fv[0]])
     pool.append(["gen", "fontfile", fv[1]])
     pool.append(["gen", "mixedfonts", rnd.randrange(2)])
+    cv = rnd.sample(range(4), 2)
+    pool.append(["gen", "crypt", cv[0]])
+    pool.append(["gen", "crypt", cv[1]])
     for s in rnd.sample(SAMPLES, 2):
         pool.append(["sample", s[0], s[1]])
     order = list(range(len(pool)))
